@@ -533,6 +533,10 @@ def c04_programs(seed, tier):
     for f in IM_STR:
         out.append(prog(f"only_im_{f}", [new("g"), image([rep("visual", 5)], setters=[setter(f, f"only-{f}")]), FIN]))
     out.append(prog("only_coord", [new("g"), {"op": "coord", "v": "c"}, FIN]))
+    # metadata set between two finalize calls while nothing else is added: the second finalize must write it
+    out.append(prog("meta_after_finalize", [new("g"), pc(p0, 2), FIN, {"op": "coord", "v": "set later"}, {"op": "creation", "v": dt(7.5e8, True)}, FIN]))
+    out.append(prog("meta_changed_after_finalize", [new("g"), {"op": "coord", "v": "first"}, FIN, {"op": "coord", "v": "second"}, FIN, {"op": "coord", "v": "third"}, FIN]))
+    out.append(prog("ext_after_finalize", [new("g"), pc(p0, 1), FIN, {"op": "ext", "ns": "late", "url": "http://example.com/late"}, FIN]))
     # XML sections beyond what the library's own reader accepts (10 MiB): finalize must refuse, or the file must open
     out.append(prog("big_xml_3MB", [new("g"), {"op": "coord", "v": {"rep": "0123456789", "n": 300000}}, FIN], big=True))
     out.append(prog("big_xml_11MB", [new("g"), {"op": "coord", "v": {"rep": "0123456789", "n": 1100000}}, FIN], big=True))
@@ -753,6 +757,12 @@ def c14_programs(seed, tier):
         for bname, seq in (("first", [bad_range] + good), ("middle", good[:1] + [bad_range, bad_low, bad_type] + good[1:]), ("last", good + [bad_type, bad_low]),
                            ("only", [bad_range, bad_type]), ("arity", good[:2] + [bad_arity] + good[2:])):
             out.append(prog(f"b_rejected_{bname}_{tname}", [new("g"), pc(proto, pts=seq), FIN], reals=True))
+    # a NaN coordinate in the MIDDLE of the stream (an invalid measurement) is no real value: the bounds are those of the
+    # other points, all of which lie within them (a NaN in the first point is outside the claim, see DESIGN 12.7)
+    NANB = 0x7FF8000000000000
+    for k, seq in enumerate(([-3.0, 7.0, None, 2.0, 4.0], [1.0, None, None, -8.0, 0.5, None, 9.0], [5.0, None, 5.0])):
+        pts = [[[1, NANB] if x is None else v_f64(x), [1, NANB] if x is None else v_f64(-x), v_f64(1.0 + j)] for j, x in enumerate(seq)]
+        out.append(prog(f"b_nan_middle_{k}", [new("g"), pc(xyz("double"), pts=pts), FIN], reals=True))
     return out
 
 
@@ -953,6 +963,21 @@ def c05_programs(seed, tier):
     step = pc(wide, pts=pts)
     step["pose_matrix"] = None
     out.append(prog("view_multi_packet_wide", [new(), {"op": "ext", "ns": "ext", "url": "urn:ext"}, step, FIN], opts=[[True, True, False, True, True, True], [False] * 6]))
+    # foreign files with CONSTANT invalid-state records (minimum = maximum, no bits per point) whose constant is not 0: the
+    # writer insists on the full 0..2 / 0..1 range, so the record is written as a constant rowIndex and renamed in the XML
+    cx, cy, cz = (coord_rec(n, "double") for n in ("cartesianX", "cartesianY", "cartesianZ"))
+    three = [[v_f64(1.0 + k), v_f64(2.0), v_f64(-0.5 * k)] for k in range(3)]
+    def renamed(name, base, const, tag):
+        proto = base + [rec("rowIndex", "int", const, const)]
+        step = pc(proto, pts=[p + [v_int(const)] for p in (three if len(base) == 3 else [q + [v_int(5)] * (len(base) - 3) for q in three])])
+        step["pose_matrix"] = None
+        fin = {"op": "finalize", "xml_replace": [["<rowIndex ", f"<{tag} "], ["</rowIndex>", f"</{tag}>"]]}
+        out.append(prog(name, [new(), step, fin], opts=[[True, True, False, True, True, True], [False] * 6, [True, True, True, False, False, False]]))
+    for const in (0, 1, 2):
+        renamed(f"view_constant_cartesian_state_{const}", [cx, cy, cz], const, "cartesianInvalidState")
+    for const in (0, 1):
+        renamed(f"view_constant_color_state_{const}", [cx, cy, cz] + rgb(), const, "isColorInvalid")
+        renamed(f"view_constant_intensity_state_{const}", [cx, cy, cz, rec("intensity", "int", 0, 9)], const, "isIntensityInvalid")
     return out
 
 
